@@ -1,8 +1,91 @@
+/-
+  C12 line-protocol ops.  A case is a history of SelectParams names (`,`-separated; each call's
+  ValueError is caught by the caller) followed by one action under the chain that history selects.
+  Text arguments travel as hex of their UTF-8 encoding.
+-/
 import Driver.Util
+import Driver.C10
+import BtcVerif.Crypto.Sha256
+import BtcVerif.Crypto.Ripemd160
+import BtcVerif.Model.Addr
 
 namespace Driver.C12
 open BtcVerif Driver
+open BtcVerif.Spec.Addr (AddrClass Addr)
+open BtcVerif.Model.Addr
 
-def handle (_op : String) (_args : List String) : Option String := none
+def H : Bytes → Bytes := Crypto.hash256
+def H160 : Bytes → Bytes := Crypto.hash160
+
+def showAddr (a : Addr) : String := a.cls.name ++ "," ++ toString a.ver ++ "," ++ toHex a.payload
+
+def showRes {α : Type} (f : α → String) : Res α → String
+  | .ok a => f a
+  | .error e => "err:" ++ e.family
+
+def parseClass? : String → Option AddrClass
+  | "P2PKH" => some .p2pkh | "P2SH" => some .p2sh | "P2WPKH" => some .p2wpkh | "P2WSH" => some .p2wsh
+  | _ => none
+
+def parseBool? : String → Option Bool
+  | "1" => some true | "0" => some false | _ => none
+
+def chainOf (hist : String) : Spec.ChainParams := (runHistory (splitList hist ',')).params
+
+/-- address, its text and its scriptPubKey under `chain` -/
+def showFull (chain : Spec.ChainParams) (r : Res Addr) : String :=
+  match r with
+  | .error e => "err:" ++ e.family
+  | .ok a => showAddr a ++ "|" ++ showRes String.ofList (toText H chain a) ++ "|" ++ showRes toHex (toScript chain a)
+
+def handle (op : String) (args : List String) : Option String :=
+  match op, args with
+  -- the state a history leaves, and the outcome of every call
+  | "c12.select", [hist] => some <|
+      let names := splitList hist ','
+      let step := fun (acc : ChainState × List String) n =>
+        let (st, e) := selectParams acc.1 n
+        (st, acc.2 ++ [match e with | none => "ok" | some e => "err:" ++ e.family])
+      let (st, outs) := names.foldl step (initState, [])
+      st.params.name ++ "," ++ st.coreparams.name ++ "," ++ st.params.bech32Hrp ++ "," ++
+        toString st.params.pubkeyAddr ++ "," ++ toString st.params.scriptAddr ++ "|" ++ joinWith "," outs
+  -- standard script → address → text → address → script
+  | "c12.conv", [hist, tmpl, payload] => some <| match parseClass? tmpl, parseHex? payload with
+      | some t, some p =>
+        let chain := chainOf hist
+        let spk := Spec.Addr.stdScript t p
+        (match fromScript H160 chain spk with
+         | .error e => "err:" ++ e.family ++ "@fromScript"
+         | .ok a =>
+           match toText H chain a with
+           | .error e => showAddr a ++ "|err:" ++ e.family ++ "@str"
+           | .ok text =>
+             match parse H chain text with
+             | .error e => showAddr a ++ "|" ++ String.ofList text ++ "|err:" ++ e.family ++ "@parse"
+             | .ok a' =>
+               showAddr a ++ "|" ++ String.ofList text ++ "|" ++ showAddr a' ++ "|" ++
+                 showRes toHex (toScript chain a') ++ "|" ++ showRes String.ofList (toText H chain a'))
+      | _, _ => badArgs
+  | "c12.fromspk", [hist, spk] => some <| match parseHex? spk with
+      | some spk => let chain := chainOf hist; showFull chain (fromScript H160 chain spk)
+      | none => badArgs
+  | "c12.p2pkh", [hist, spk, nc, bare] => some <| match parseHex? spk, parseBool? nc, parseBool? bare with
+      | some spk, some nc, some bare =>
+        let chain := chainOf hist; showFull chain (p2pkhFromScript H160 chain spk nc bare)
+      | _, _, _ => badArgs
+  | "c12.parse", [hist, text] => some <| match C10.parseText? text with
+      | some s => let chain := chainOf hist; showFull chain (parse H chain s)
+      | none => badArgs
+  -- an address object created under one selection and used under another
+  | "c12.stale", [hist1, spk, hist2] => some <| match parseHex? spk with
+      | some spk =>
+        let st1 := runHistory (splitList hist1 ',')
+        let st2 := (splitList hist2 ',').foldl (fun st n => (selectParams st n).1) st1
+        (match fromScript H160 st1.params spk with
+         | .error e => "err:" ++ e.family
+         | .ok a => showAddr a ++ "|" ++ showRes String.ofList (toText H st2.params a) ++ "|" ++
+             showRes toHex (toScript st2.params a))
+      | none => badArgs
+  | _, _ => none
 
 end Driver.C12
